@@ -26,6 +26,16 @@ NA = {
 PENDING = {}
 
 CHECKS = [
+    dict(pid="C04", level="model_checking",
+         text="LOCAL -> LOCAL step, from MIR of the async state machines run sequentially (every future completes at its await, a spawned task runs at its spawn point): deliver_local copies to the `.copia-tmp` sibling, renames over the destination only after the copy succeeded, then sets exactly the mtime it was given, requests nothing else and reports failures; run_local, for ANY SyncPlan over a universe of 2 (quick) / 3 (thorough) paths (build_plan itself is C19's), delivers exactly the plan's transfer entries in order from src/rel to dst/rel with the SOURCE's mtime, removes exactly the plan's delete entries under the destination after every delivery, creates directories only under the destination, and requests nothing in a dry run or for an empty source without --delete.",
+         ref="DESIGN.md §15 one-way sync",
+         note="ONE schedule only: the job count / task interleavings are NOT explored. Push and pull over ssh (remote `cat > tmp && mv`, `touch -d`, `xargs rm`, `find -printf`, host:path parsing) are NOT covered; 'files the quick check matched are left as they were' follows from 'nothing but the plan is touched' (decided) and C19. Validation each run: the real `copia sync -r` binary on 15 local scenarios (delete / dry-run / excludes) against the tree C04 describes.",
+         technique="SMT over MIR (async coroutines executed sequentially; effect trace; BTreeMap model); native end-to-end replay with the real binary, strace for order"),
+    dict(pid="C09", level="model_checking",
+         text="ORDER of requests the crash argument rests on, local and pull directions, from MIR: bytes reach a destination path only through a rename of its `.copia-tmp` sibling; that rename is requested only after the local copy / the remote stream into the sibling succeeded; nothing else is requested of the destination; removals of stale files come after every delivery.",
+         ref="DESIGN.md §15 one-way sync",
+         note="Kill points are NOT explored (atomic rename(2) is the kernel's; a killed run leaves at worst a reserved `.copia-tmp` name: argued, not decided). The PUSH direction (`cat > tmp && mv -f tmp dst` executed by a remote shell) and transfer_file_from_remote's child-process handling are not covered. One schedule. Validation: strace of a real local delivery.",
+         technique="SMT over MIR (ordered effect trace of the delivery state machines); strace of the real binary"),
     dict(pid="C13", level="model_checking",
          text="CLIENT step, from MIR: hub_sync's orchestration over an ordered universe of 2 (quick) / 3 (thorough) paths with the hub's listing and the local scan symbolic and HubClient's methods summarised — exactly the local files whose hash differs from the listed one (or that the hub does not list) are Put, once each, in path order, carrying the file's hash, its path under the local root and the LISTED hash as `expected`; nothing but connect/list/put/bye is requested (hub files at other paths are never addressed); exit 0 exactly when the run completed and every Put committed. HubClient::put with the pipe as a recorder: one Put frame with the given path/expected/hash and the file's length, then the file streamed, flushed, then the reply read; Ok(committed) only for a PutResult reply.",
          ref="DESIGN.md §14 hub-sync client",
@@ -146,7 +156,7 @@ def build():
             "add_only": True,
         },
         "engines": [
-            {"name": "mirsmt", "path": "/verif/mirsmt", "serves_properties": ["C01", "C02", "C03", "C05", "C06", "C07", "C08", "C10", "C11", "C12", "C13", "C14", "C15", "C16", "C17", "C18", "C19", "C20"],
+            {"name": "mirsmt", "path": "/verif/mirsmt", "serves_properties": ["C01", "C02", "C03", "C04", "C05", "C06", "C07", "C08", "C09", "C10", "C11", "C12", "C13", "C14", "C15", "C16", "C17", "C18", "C19", "C20"],
              "kind_free_text": "own symbolic executor over nightly rustc MIR text -> z3 terms (Int encoding with explicit wrap); z3 decides, cvc5 / z3 4.8.12 re-decide the exported SMT-LIB2"},
             {"name": "kani", "path": "/verif/kani-lib, /verif/kani-bin", "serves_properties": ["C01", "C05", "C18", "C19", "C20"],
              "kind_free_text": "Kani 0.68 / CBMC 6.11 proof harnesses in out-of-tree crates over the real code (path dependency; environment shims for blake3, rayon, rustc-hash)"},
